@@ -355,6 +355,12 @@ TEXTUAL = [
     ("C05", "nndsvd-leading-pair-copied-as-is", "tensorly/tenalg/svd.py", "    W = tl.index_update(W, tl.index[:, 0], tl.sqrt(S[0]) * tl.abs(U[:, 0]))", "    W = tl.index_update(W, tl.index[:, 0], tl.sqrt(S[0]) * U[:, 0])"),
     ("C05", "nndsvd-negative-part-not-flipped", "tensorly/tenalg/svd.py", "        x_n, y_n = tl.abs(tl.clip(x, a_max=0.0)), tl.abs(tl.clip(y, a_max=0.0))", "        x_n, y_n = tl.clip(x, a_max=0.0), tl.abs(tl.clip(y, a_max=0.0))"),
     ("C05", "interface-flips-after-non-negative", "tensorly/tenalg/svd.py", "    if flip_sign:\n        U, V = svd_flip(U, V, u_based_decision=u_based_flip_sign)\n\n    if non_negative is not False and non_negative is not None:\n        U, V = make_svd_non_negative(matrix, U, S, V, non_negative)\n", "    if non_negative is not False and non_negative is not None:\n        U, V = make_svd_non_negative(matrix, U, S, V, non_negative)\n\n    if flip_sign:\n        U, V = svd_flip(U, V, u_based_decision=u_based_flip_sign)\n"),
+    ("C04", "cp-mode-dot-contraction-rebinds-weights", "tensorly/cp_tensor.py", "        factor = T.dot(matrix_or_vector, factor)\n        mode = max(mode - 1, 0)\n        factors[mode] *= factor\n", "        weights = weights * T.dot(matrix_or_vector, factor)\n"),
+    ("C04", "cp-mode-dot-result-factor-rebound", "tensorly/cp_tensor.py", "        factors[mode] = T.dot(matrix_or_vector, factors[mode])\n\n    if copy:\n        return", "        factors = factors[:mode] + [T.dot(matrix_or_vector, factors[mode])] + factors[mode + 1 :]\n\n    if copy:\n        return"),
+    ("C12", "hard-threshold-selects-by-cutoff-value", "tensorly/tenalg/proximal.py", "            sorted_indices < number_of_non_zero,\n", "            tl.abs(tensor_vec) >= tl.sort(tl.abs(tensor_vec), axis=0)[-int(number_of_non_zero)],\n"),
+    ("C20", "permute-factors-congruence-arguments-swapped", "tensorly/cp_tensor.py", "            ref_cp_tensor.factors, tensors_to_permute[i].factors\n", "            tensors_to_permute[i].factors, ref_cp_tensor.factors\n"),
+    ("C20", "congruence-assignment-keyed-by-columns", "tensorly/metrics/factors.py", "    indices = dict(zip(row_ind, col_ind))", "    indices = dict(zip(col_ind, row_ind))"),
+    ("C20", "congruence-cross-product-transposed", "tensorly/metrics/factors.py", "        all_congruences_list.append(T.dot(T.transpose(mat1), mat2))", "        all_congruences_list.append(T.dot(T.transpose(mat2), mat1))"),
     ("C03", "cp-ctor-skips-validation", "tensorly/cp_tensor.py", "        shape, rank = _validate_cp_tensor(cp_tensor)\n        weights, factors = cp_tensor\n", "        weights, factors = cp_tensor\n        shape, rank = tuple(f.shape[0] for f in factors), factors[0].shape[1]\n"),
     ("C03", "tt-vec-of-other-family", "tensorly/tt_tensor.py", "    return tl.tensor_to_vec(tt_to_tensor(factors))", "    return tl.tensor_to_vec(tt_to_tensor(factors[::-1]))"),
     ("C03", "tucker-unfolded-wrong-mode", "tensorly/tucker_tensor.py", "        mode,\n    )", "        mode + 1,\n    )"),
@@ -456,9 +462,12 @@ TEXTUAL_TWINS = [
     ("C07", "tr-als-normal-eq-named-transpose", "tensorly/decomposition/_tr_als.py", "                rhs_mat = tl.matmul(design_mat_tr, tensor_unf)", "                rhs_mat = tl.dot(design_mat_tr, tensor_unf)"),
     ("C13", "hals-update-as-increment", "tensorly/solvers/nnls.py", "                newV = tl.clip(num / den, a_min=epsilon)", "                step = (num - den * V[k, :]) / den\n                newV = tl.clip(V[k, :] + step, a_min=epsilon)"),
     ("C13", "fista-gradient-reordered", "tensorly/solvers/nnls.py", "                -UtM + tl.dot(UtU, x_update) + sparsity_coef + 2 * ridge_coef * x_update\n", "                tl.dot(UtU, x_update) - UtM + 2 * ridge_coef * x_update + sparsity_coef\n"),
+    ("C12", "hard-threshold-zero-count-returns-zeros", "tensorly/tenalg/proximal.py", "    tensor_vec = tl.copy(tl.tensor_to_vec(tensor))\n    sorted_indices", "    if number_of_non_zero < 1:\n        return tensor * 0\n    tensor_vec = tl.copy(tl.tensor_to_vec(tensor))\n    sorted_indices"),
+    ("C12", "hard-threshold-ranks-of-negated-magnitudes", "tensorly/tenalg/proximal.py", "    sorted_indices = tl.argsort(\n        tl.flip(tl.argsort(tl.abs(tensor_vec), axis=0), axis=0), axis=0\n    )", "    sorted_indices = tl.argsort(tl.argsort(-tl.abs(tensor_vec), axis=0), axis=0)"),
     ("C12", "soft-threshold-via-maximum", "tensorly/tenalg/proximal.py", "    return tl.sign(tensor) * tl.clip(tl.abs(tensor) - threshold, a_min=0)", "    shrunk = tl.abs(tensor) - threshold\n    return tl.sign(tensor) * tl.where(shrunk < 0, 0.0, shrunk)"),
     ("C12", "l2-prox-guarded-division", "tensorly/tenalg/proximal.py", "    return tensor - (tensor * regularizer / bigger_value)", "    return tensor - (tensor * regularizer / (bigger_value + 1e-12))"),
     ("C12", "normalized-sparsity-guarded-norm", "tensorly/tenalg/proximal.py", "    return tensor_hard / tl.norm(tensor_hard)", "    return tensor_hard / (tl.norm(tensor_hard) + tl.eps(tensor_hard.dtype))"),
+    ("C20", "permute-factors-both-directions-flipped", "tensorly/cp_tensor.py", "            ref_cp_tensor.factors, tensors_to_permute[i].factors\n        )\n        col = T.tensor(col, dtype=T.int64)", "            ref_cp_tensor.factors, tensors_to_permute[i].factors\n        )\n        col = [int(c) for c in col]\n        col = T.tensor(col, dtype=T.int64)"),
     ("C20", "congruence-normalise-via-local", "tensorly/metrics/factors.py", "        mat1 = mat1 / T.norm(mat1, axis=0)\n", "        norms1 = T.norm(mat1, axis=0)\n        mat1 = mat1 / norms1\n"),
     ("C20", "r2-via-ratio", "tensorly/metrics/regression.py", "    return 1 - T.norm(X_predicted - X_original) ** 2.0 / T.norm(X_original) ** 2.0", "    return 1 - (T.norm(X_predicted - X_original) / T.norm(X_original)) ** 2.0"),
     ("C05", "symeig-normalise-before-product", "tensorly/tenalg/svd.py", "        U = tl.dot(matrix, V) / tl.reshape(S, (1, -1))", "        U = tl.dot(matrix, V / tl.reshape(S, (1, -1)))"),
@@ -467,6 +476,7 @@ TEXTUAL_TWINS = [
     ("C09", "tt-svd-min-argument-order", "tensorly/decomposition/_tt.py", "        current_rank = min(n_row, n_column, rank[k + 1])", "        current_rank = min(rank[k + 1], n_column, n_row)"),
     ("C08", "tr-svd-rank-rotation-via-open-ring", "tensorly/decomposition/_tr_svd.py", "        rank = rank[mode:-1] + rank[:mode] + [rank[mode]]\n", "        ring = rank[:-1]\n        ring = ring[mode:] + ring[:mode]\n        rank = ring + [ring[0]]\n"),
     ("C05", "nndsvd-positive-part-via-maximum", "tensorly/tenalg/svd.py", "        x_p, y_p = tl.clip(x, a_min=0.0), tl.clip(y, a_min=0.0)", "        x_p, y_p = tl.abs(tl.clip(x, a_min=0.0)), tl.clip(y, a_min=0.0)"),
+    ("C04", "cp-mode-dot-contraction-into-weights-stored-back", "tensorly/cp_tensor.py", "        factor = T.dot(matrix_or_vector, factor)\n        mode = max(mode - 1, 0)\n        factors[mode] *= factor\n", "        weights = weights * T.dot(matrix_or_vector, factor)\n        if not copy:\n            cp_tensor.weights = weights\n"),
     ("C01", "partial-fold-del-by-position", "tensorly/base.py", "    mode_dim = transposed_shape.pop(skip_begin + mode)", "    mode_dim = transposed_shape.pop(skip_begin + mode)\n    _n_axes = len(transposed_shape)"),
 ]
 
